@@ -1,6 +1,6 @@
 """Helpers shared by rule modules: guard tables in normal form, table comparison."""
 from bpsa.normal import canon, accept_atoms, bool_atom, atom_vars, variant_atom
-from bpsa.terms import short, walk
+from bpsa.terms import short, walk, TERM_IDX
 import copy
 
 
@@ -132,15 +132,30 @@ def _rows(ctx, body, xf, octx, oeff, site_bb, depth, rows, parent):
                 # accept-condition as a universally quantified statement about one element, when it is one
                 accept_true = g.reject_when_false() != neg
                 accept_false = g.reject_when_true() != neg
-                rt = xf2(eng.return_term(cb))
-                if kind == 'any' and accept_false:
-                    atoms = bool_atom(rt, positive=False)
-                elif kind == 'all' and accept_true:
-                    atoms = bool_atom(rt, positive=True)
-                else:
-                    atoms = None
-                if atoms and not any(a[0] == 'unknown' for a in atoms):
-                    rows.append({'guard': _with_cond(g, rt, sb), 'ctx': pc2, 'atoms': atoms, 'eff': _combine_eff(eff, 'forall'), 'parent': me, 'spliced': True})
+                if not ((kind == 'any' and accept_false) or (kind == 'all' and accept_true)):
+                    continue
+                want = (kind == 'all')          # the value every element's closure result must have for the guard to accept
+                # the closure's result, one alternative per definition of its return place (`a && b` is `if a { b } else { false }`),
+                # each under the branch conditions of its definition
+                ccfg = ctx.cfgof(cb)
+                rets = ccfg.returns
+                alts = ctx.alternatives(cb, rets[0], TERM_IDX, {'k': 'copy', 'place': {'l': 0, 'p': [], 'ty': 'bool'}}) if rets else []
+                new_rows, okall = [], bool(alts)
+                for (t_alt, dbb) in alts:
+                    ta = xf2(t_alt)
+                    if ta.tag == 'const' and (isinstance(ta[1], bool) or ta[1] in (0, 1)):
+                        if bool(ta[1]) == want:
+                            continue            # this alternative accepts by itself
+                        atoms = [('const', False)]
+                    else:
+                        atoms = bool_atom(ta, positive=want)
+                    if any(a[0] == 'unknown' for a in atoms):
+                        okall = False
+                        break
+                    pc3 = tuple(sorted(set(pc2) | set(path_ctx(ctx, cb, dbb, set(), xf2)), key=repr))
+                    new_rows.append({'guard': _with_cond(g, ta, sb), 'ctx': pc3, 'atoms': atoms, 'eff': _combine_eff(eff, 'forall'), 'parent': me, 'spliced': True})
+                if okall:
+                    rows.extend(new_rows)
         elif last == 'collect' and c0.tag == 'discr' and x[2] and x[2][0].tag == 'map' and _closure_of(x[2][0][2]) is not None:
             it, cl = x[2][0][1], _closure_of(x[2][0][2])
             cb = ctx.facts.fn.get(cl[1])
